@@ -18,14 +18,23 @@ package (`monitors.rebind_everywhere`), i.e. they are hit by `svd_qn.svd_qn(...)
 
 Counters (all through monitors.bump, so they appear in the evidence of whatever property drains them):
     svd_qn_contract_evals, svd_qn_contract_evals:<mode>, svd_qn_callsite_evals, svd_qn_multi_sector_evals,
-    eigh_qn_contract_evals, eigh_qn_callsite_evals, eigh_qn_input_not_psd,
-    krylov_contract_evals, krylov_callsite_evals, krylov_callsite_post_checked, krylov_materialised, krylov_too_large_skipped,
-    krylov_post_checked, krylov_outside_moderate_range, krylov_nonhermitian_map, krylov_nonlinear_map, krylov_exit:<branch>, krylov_buffer_growth,
-    kernel_contract_internal_error
+    svd_qn_contract_skipped_nonfinite_or_huge_input,
+    eigh_qn_contract_evals, eigh_qn_callsite_evals, eigh_qn_multi_sector_evals, eigh_qn_input_not_psd,
+    krylov_contract_evals, krylov_callsite_evals, krylov_materialised, krylov_too_large_skipped,
+    krylov_post_checked, krylov_callsite_post_checked, krylov_outside_moderate_range, krylov_nonhermitian_map,
+    krylov_nonlinear_map, krylov_materialise_floating_point_error, krylov_exit:<full-space|breakdown|converged>,
+    krylov_buffer_growth, kernel_contract_internal_error
+(<mode> is economic | full | qr-L-economic | qr-L-full | qr-R-economic | qr-R-full; "callsite" = called from a
+repository frame rather than from rv/props.)
 
-Precondition observations (the caller's obligation, therefore NOT a violation of C18): appended to OBSERVATIONS as
-dicts {"kind": "krylov-nonhermitian-map", "rel_antiherm": .., "dim": .., "where": "<repo file>:<function>"} and
-counted as `krylov_nonhermitian_map`; fetch and clear them with `drain_observations()`.
+Precondition observations (the caller's obligation, therefore NOT a violation of C18) are appended to OBSERVATIONS as
+dicts and counted; fetch and clear them with `drain_observations()`:
+    {"kind": "krylov-nonhermitian-map", "rel_antiherm": .., "dim": .., "where": "<repo file>:<function>", ..}
+    {"kind": "krylov-nonlinear-map", ..}   {"kind": "krylov-outside-moderate-range", "norm_A_dt": .., ..}
+    {"kind": "eigh_qn-input-not-psd", "nonhermitian": .., "min_eig": .., "where": ..}
+The Krylov postcondition is judged only when the map is linear, Hermitian (||M-M^H|| <= 1e-9 ||M||) and
+||M||_2 |dt| <= 20.  LAST_KRYLOV describes the most recent call (exit branch, buffer growth, iterations); WORST keeps
+the largest defect seen per check.
 """
 import os
 import sys
@@ -363,7 +372,8 @@ def check_eigh_qn(dm, qnbigl, qnbigr, qntot, system, result, where):
         bad("eigenvalues-differ-from-dense-eigh", defect=x, wmax=wmax)
     err = float(np.linalg.norm((u * s ** 2) @ u.conj().T - mh))
     _worst("eigh_qn_reconstruction_rel_err", err / scale if scale > 0 else err)
-    if err > 1e-9 * scale + 1e-300:
+    neg = max(0.0, -float(w.min())) if len(w) else 0.0      # eigenvalues the code clips to zero (rounding of a PSD input)
+    if err > 1e-9 * scale + np.sqrt(len(w)) * neg + 1e-300:
         bad("reconstruction", err=err, scale=scale)
     return None
 
